@@ -86,7 +86,8 @@ type QueueSnap struct {
 	QPSet        bool              `json:"qpSet"`
 	QPDue        bool              `json:"-"`
 	// QPWhen is the part of the quota preemption start time that belongs to the state: "" (not set), "due" (start is
-	// in the past or less than a minute away) or "later". The scenarios use delays of 1ns or of hours, so the class is
+	// in the past or less than a minute away), "soon" (less than 100 minutes away) or "later". The scenarios use delays of
+	// 1ns, 1h and 3h, so the class is
 	// the same on every replay; without it a state whose start time was moved into the past by a reload would be merged
 	// with the state reached by the direct reload (same queues, same flags) and never be expanded.
 	QPWhen    string           `json:"qpWhen"`
@@ -251,9 +252,13 @@ func snapQueue(q *objects.Queue, out map[string]*QueueSnap) {
 	sort.Strings(qs.Children)
 	qs.QPSet, qs.QPDue, qs.QPRunning = q.VerifQuotaPreemptionState()
 	if start := q.VerifQuotaPreemptionStart(); !start.IsZero() {
-		qs.QPWhen = "later"
-		if time.Until(start) < time.Minute {
+		switch d := time.Until(start); {
+		case d < time.Minute:
 			qs.QPWhen = "due"
+		case d < 100*time.Minute:
+			qs.QPWhen = "soon"
+		default:
+			qs.QPWhen = "later"
 		}
 	}
 	if em := q.GetMaxResource(); em != nil {
